@@ -557,14 +557,14 @@ def mutate_line(rng, text, token):
 def c18_run(rng):
     cls = rng.choice(["T", "T", "S"])
     cfg = base_config(rng, cls)
-    nsess = rng.choice([1, 1, 2, 3, 4])
+    nsess = rng.choice([1, 1, 2, 3, 4, 4, 11])      # (11: two-digit session counts)
     steps = [{"op": "start"}, {"op": "idle"}]
     for i in range(nsess):
         steps.append({"op": "connect", "c": i + 1, "w": rng.choice(WIDTHS)})
     steps.append({"op": "idle"})
     tokens = {}
     counts = {i + 1: 0 for i in range(nsess)}
-    nlines = rng.choice([4, 8, 14, 24])
+    nlines = rng.choice([4, 8, 14, 24]) if nsess < 11 else rng.choice([24, 48])
     burst = rng.random() < 0.5
     closed = False
     waiter = rng.randrange(nsess) + 1 if (nsess >= 2 and rng.random() < 0.35) else None
@@ -706,7 +706,7 @@ def c19_run(rng):
     steps = [{"op": "start"}]
     if rng.random() < 0.8:
         steps.append({"op": "idle"})
-    n = rng.choice([0, 1, 1, 2, 3, 4])
+    n = rng.choice([0, 1, 1, 2, 3, 4, 4, 11])
     labels = []
     acts = []
     for i in range(n):
